@@ -169,6 +169,10 @@ func runScenario(sc Scenario) M {
 			}
 		case "sleep":
 			time.Sleep(time.Duration(geti(op, "ms")) * time.Millisecond)
+		case "stacks":
+			// what the server's goroutines are doing right now (diagnosis of a scenario, not judged)
+			_, st := hagallGoroutines()
+			r["stacks"] = st
 		case "waitreturn":
 			ms := geti(op, "ms")
 			if ms == 0 {
